@@ -6,3 +6,8 @@
 #![allow(missing_docs, unreachable_pub, dead_code, missing_debug_implementations)]
 
 pub use iroh_base::verif_hooks::{event, events_enabled, pause};
+
+pub mod codec;
+pub mod handshake;
+pub mod server;
+pub mod dial;
